@@ -32,6 +32,7 @@ var (
 	ErrDecimalPrecisionTooLow          = fmt.Errorf("precision is set to less than 0 digits")
 	ErrDecimalScaleTooHigh             = fmt.Errorf("scale is set to more than %d digits", aseMaxDecimalDigits)
 	ErrDecimalScaleBiggerThanPrecision = fmt.Errorf("scale is bigger then precision")
+	ErrDecimalScaleTooLow              = fmt.Errorf("scale is set to less than 0 digits")
 )
 
 // Decimal only carries the information of Decimal, Numeric and Money
@@ -86,6 +87,10 @@ func (dec Decimal) sanity() error {
 
 	if dec.Scale > aseMaxDecimalDigits {
 		return ErrDecimalScaleTooHigh
+	}
+
+	if dec.Scale < 0 {
+		return ErrDecimalScaleTooLow
 	}
 
 	if dec.Scale > dec.Precision {
